@@ -11,7 +11,7 @@ RULE = ("seeded programs of 1-4 activities each running `async for now in interv
         "postpones repeatedly. Non-trivial = some body ran at least as long as the period, the "
         "period is 0, or an until-block cut the ticker; distinct = distinct per-actor sequence "
         "of (event, time).")
-BUDGET = {"quick": {"cases": 60000, "wall_s": 100, "chunk": 250},
+BUDGET = {"quick": {"cases": 60000, "wall_s": 240, "chunk": 250},
           "thorough": {"cases": 1200000, "wall_s": 1500, "chunk": 500}}
 ASSUMPTIONS = ["periods and durations of the modelled programs are dyadic rationals, so the grid "
                "arithmetic is exact; non-dyadic grids are checked by comparing tickers with "
